@@ -13,10 +13,13 @@ CONSTANTS
   MaxKick = 1
   Serial = TRUE
   CopyBusy = FALSE
+  CopyWoken = FALSE
+  Founders = {1, 2, 3, 4, 5}
   FixCloseRace = TRUE
   FixGetValue = TRUE
   FixBlocking = TRUE
   FixCopyParked = TRUE
+  FixCopyOfWoken = TRUE
 INVARIANTS TypeOK WindowShape WindowSufficient GapFreeInOrder NoDuplicate SkipMonotone EOSOnlyWhen CloseWakesAll NoLostWaiter PosConsistent FreeListSound
 PROPERTIES RecentIsNewest BehindSkipsOnlyDropped NotReadyOnlyWhen CopyIndependent GrowOnlyWhenFull
 CHECK_DEADLOCK FALSE
